@@ -13,6 +13,7 @@
 import AITB.Props.C20
 import AITB.Props.C20h
 import AITB.Model.IndexMap
+import AITB.Gen.C20Sites
 
 namespace AITB.IndexMap
 
@@ -542,3 +543,7 @@ example : ∃ t es, RI t es ∧ ValidQ t.F [(1, 0)] ∧ specFilter es ([(0, 1)] 
   intro kv hkv; simp at hkv; subst hkv; decide
 
 end AITB.Trie
+
+/-- every statement of the anchored files that the model transcribes is in the source as the model assumes it
+    (`tools/extract_c20.py`, regenerated on every run: 93 sites of Trie.cpp, FasterTrie.cpp, FilterMap.hpp, IndexMap.hpp) -/
+theorem AITB.Trie.sites_as_modelled : AITB.Gen.C20Sites.sites.all (fun s => s.2.2.1 == s.2.2.2) = true := by decide
